@@ -63,3 +63,8 @@ add("C19", "E1",
     "Function pointers and constants from FloatOpsFactory::<f32|f64>::make(), and the same names through FlatEx/DeepEx in function, juxtaposed, infix and call form, compared bit-for-bit (NaN = NaN) with an independent name -> std primitive table with the documented argument order; the set of names itself is checked against the documented list.",
     "Trusted: the harness' name -> primitive table (harness/src/c19.rs); libm determinism within a process. min/max on two zeros / NaN are skipped (not pinned down by std).",
     "DESIGN.md §3 C19")
+add("C05", "E1",
+    "bounded-exhaustive enumeration of differentiable expression trees x variable index x order x provenance, compared with forward-mode jets on the reference tree: exactly over Q (exact rational data type run through the library) on the rational fragment, with running rounding-error bounds (error-bounded float data type run through the library) elsewhere",
+    "Every tree up to the stated size over + - * / ^, unary +/-, the 18 differentiable functions and the operators without a rule; FlatEx::parse, DeepEx::parse, to_deepex, from_deepex provenances; first order everywhere, second order (all index pairs) for the small sizes. On the rational fragment the derivative expression is evaluated in exact arithmetic on a rational grid and must equal the exact derivative; elsewhere a violation is a difference beyond 16x the summed first-order rounding bounds at a conclusive point (>= 3 of 8 fixed points needed). Operators without a rule above the variable must make partial() fail.",
+    "Trusted: jet rules in harness/src/numty.rs, libm accuracy (2-4 ulp), num::BigRational. Points outside the domain / with large bounds are inconclusive and counted.",
+    "DESIGN.md §3 C05")
